@@ -161,7 +161,7 @@ def run_scenario(exe, cat, sc, scratch, idx):
                         break
                     if dt >= 0.04:
                         heartbeat()
-                    time.sleep(min(0.04, left))
+                    time.sleep(min(0.04 if dt < 2.0 else 0.25, left))
             r.t0 = time.time()
             heartbeat(); time.sleep(0.02)
             for n, e in enumerate(sc["events"]):
